@@ -264,10 +264,13 @@ def _real_policy(fn_args, which):
         a["c0"] = min(max(a["c0"], 0), 4000000000)
         if "c1" in a:
             a["c1"] = min(max(a["c1"], a["c0"]), 4000000000)
-        if which == "listed":
-            ok = _policy(a["opi"], a["auto"], a["toggle"], a["c0"], a["c1"], _listed_ops(), path)
-        else:
-            ok = _policy(a["opi"], a["auto"], False, a["c0"], a["c1"], _other_ops(), path)
+        try:
+            if which == "listed":
+                ok = _policy(a["opi"], a["auto"], a["toggle"], a["c0"], a["c1"], _listed_ops(), path)
+            else:
+                ok = _policy(a["opi"], a["auto"], False, a["c0"], a["c1"], _other_ops(), path)
+        except Exception as e:  # noqa
+            return True, {"args": a, "raised_on_real_stack": "%s: %s" % (type(e).__name__, str(e)[:200])}
         return (not ok), {"args": a, "policy_holds_on_real_stack": ok}
     finally:
         for m in (U, UU):
